@@ -24,6 +24,7 @@ import (
 	"os"
 	"path/filepath"
 	"runtime"
+	"slices"
 	"sort"
 	"strings"
 	"sync"
@@ -43,7 +44,7 @@ func (eng) CoqRequire(mode string) string {
 func (eng) CoqCaseType(mode string) string { return "Check_cluster.case" }
 func (eng) CoqRun(mode string) string      { return "Check_cluster.run" }
 func (eng) Rule(mode string) string {
-	return "random inputs (1-4 splits, 2-14 records each, 1-5 keys), 1-3 workers, 1-16 key groups, operator/runner/read batch sizes 1-5, tiny DKV (256-byte memtables); schedules of feed/drain/checkpoint/crash ops: checkpoints with every acknowledgement held and released in a random permutation, crashes before/during (after k acknowledgements)/after checkpoints, of all workers with or without the job, restart with the same or another worker count; checkpoints whose publication (file write) is held while all workers are lost and a new assembly is deployed, released before / during the job's Deploy / after; transient read outages on an operator's DKV storage right after a restart from a checkpoint (the worker stops, everything restarts); a third of the cases with 1-2 hot keys whose summary entry is rewritten across memtable flushes. Non-trivial: at least one crash after which records were applied, and at least one published checkpoint."
+	return "random inputs (1-4 splits, 2-14 records each, 1-5 keys), 1-3 workers, 1-16 key groups, operator/runner/read batch sizes 1-5, tiny DKV (256-byte memtables); schedules of feed/drain/checkpoint/crash ops: checkpoints with every acknowledgement held and released in a random permutation, crashes before/during (after k acknowledgements)/after checkpoints, of all workers with or without the job, restart with the same or another worker count; checkpoints whose publication (file write) is held while all workers are lost and a new assembly is deployed, released before / during the job's Deploy / after; event time in the cases with >= 3 splits: every third record registers a timer whose firing is recorded in keyed state, watermarks advance at generated points before and after crashes and at the end; transient read outages on an operator's DKV storage right after a restart from a checkpoint (the worker stops, everything restarts); a third of the cases with 1-2 hot keys whose summary entry is rewritten across memtable flushes. Non-trivial: at least one crash after which records were applied, and at least one published checkpoint."
 }
 
 type recJ struct {
@@ -422,6 +423,17 @@ func (r *runner) outage(o *opJ) {
 	}
 }
 
+func firesOf(l clusterlib.Log) []string {
+	var out []string
+	for _, f := range l.Fires {
+		out = append(out, fmt.Sprintf("g%d w%d %s@%d #%d", f.Gen, f.Worker, f.Key, f.TS, f.Count))
+		if len(out) >= 60 {
+			break
+		}
+	}
+	return out
+}
+
 // sstCount counts flushed table files under the operators' DKV directories.
 func sstCount(dir string) int {
 	n := 0
@@ -515,6 +527,11 @@ func (eng) execute(mode string, c *hx.Case) (*hx.Result, error) {
 	}
 
 	sc := clusterlib.NewScript(splits)
+	timersOn := false
+	if v, ok := c.Params["timers"].(bool); ok && v {
+		timersOn = true
+		sc.TimerEvery = 3
+	}
 	w := pInt(c, "workers", 2)
 	r := &runner{sc: sc, w: w, tags: map[string]bool{}}
 	cl, err := clusterlib.New(clusterlib.Options{Dir: dir, Workers: w, KeyGroups: pInt(c, "kg", 8), OpBatch: pInt(c, "op_batch", 1),
@@ -561,7 +578,19 @@ func (eng) execute(mode string, c *hx.Case) (*hx.Result, error) {
 		case "ckpt":
 			r.checkpoint(&o)
 		case "outage":
-			r.outage(&o)
+			if !timersOn {
+				r.outage(&o)
+			}
+		case "advance": // event time moves on: markers into every split, every runner sends a watermark after reading its marker
+			if timersOn && r.running() {
+				// everything read so far is applied first: the operator handles a watermark at once but keeps records in its
+				// pending batch, so a watermark would overtake them and their timers would be dropped as late (docs/C01.md)
+				r.wait(func(l *clusterlib.Log) bool { return r.readAllCond()(l) && r.drainedCond()(l) })
+				sc.Advance()
+				r.wait(r.readAllCond())
+				cl.TickWatermarks()
+				r.tags["watermark-advanced"] = true
+			}
 		case "settle": // let pending memtable flushes finish (so that the next checkpoint holds state in table files)
 			if r.running() {
 				cl.AwaitFlushed(200 * time.Millisecond)
@@ -581,6 +610,31 @@ func (eng) execute(mode string, c *hx.Case) (*hx.Result, error) {
 		r.stalled = false
 		allApplied := func(l *clusterlib.Log) bool { return r.readAllCond()(l) && r.drainedCond()(l) }
 		ok := r.running() && r.wait(allApplied)
+		if ok && timersOn {
+			// every timer still pending becomes due; a checkpoint is the barrier behind which all firings have been applied
+			sc.Advance()
+			ok = r.wait(r.readAllCond())
+			if ok {
+				cl.TickWatermarks()
+				before := len(cl.Log().Started)
+				if err := cl.TriggerCheckpoint(); err == nil {
+					if st := cl.Log().Started; len(st) > before {
+						id := st[len(st)-1]
+						ok = r.wait(func(l *clusterlib.Log) bool {
+							for _, p := range l.Published {
+								if p.ID == id && p.Done {
+									return true
+								}
+							}
+							return false
+						})
+					} else {
+						r.tags["final-barrier-refused"] = true
+						cl.Await(func(*clusterlib.Log) bool { return false }, 20*time.Millisecond) // fires batch time-outs for a while
+					}
+				}
+			}
+		}
 		if ok {
 			// probes: one per key, appended now that everything else has been applied
 			for _, k := range keyList {
@@ -616,11 +670,21 @@ func (eng) execute(mode string, c *hx.Case) (*hx.Result, error) {
 	// ---- the Gallina term
 	var sb strings.Builder
 	sb.WriteString("(Check_cluster.Case ")
-	var spT []string
-	for _, sp := range splitsJ {
+	var spT, timerT []string
+	for si := 0; si < sc.NumSplits(); si++ {
 		var rs []string
-		for _, rc := range sp {
-			rs = append(rs, hx.CoqPair(hx.CoqN(uint64(rc.ID)), hx.CoqN(uint64(rc.Key))))
+		for _, rc := range sc.Records(si) {
+			if rc.Probe {
+				continue
+			}
+			k, ok := keyIdx[string(rc.Key)]
+			if !ok || rc.Marker {
+				k = 99 // time marker: occupies a position, belongs to no key (Check_cluster.marker_key)
+			}
+			rs = append(rs, hx.CoqPair(hx.CoqN(uint64(rc.ID)), hx.CoqN(uint64(k))))
+			if rc.Timer > 0 {
+				timerT = append(timerT, hx.CoqPair(hx.CoqN(uint64(rc.ID)), hx.CoqN(uint64(rc.Timer))))
+			}
 		}
 		spT = append(spT, hx.CoqList(rs, "N * N"))
 	}
@@ -660,6 +724,7 @@ func (eng) execute(mode string, c *hx.Case) (*hx.Result, error) {
 	}
 	sb.WriteString(hx.CoqList(tlT, "Check_cluster.tev") + "\n  ")
 	var invT []string
+	nDoomed := 0
 	maxGen := int64(0)
 	for _, iv := range l.Invocations {
 		if iv.Gen > maxGen {
@@ -673,7 +738,26 @@ func (eng) execute(mode string, c *hx.Case) (*hx.Result, error) {
 		if !ok {
 			k = 999999
 		}
-		invT = append(invT, fmt.Sprintf("Check_cluster.Inv %s %s %s %s %s %s", hx.CoqN(uint64(iv.Gen)), hx.CoqN(uint64(k)), hx.CoqN(uint64(iv.Rec)), hx.CoqBool(iv.Probe), hx.CoqList(g, "N * N * N"), hx.CoqN(uint64(iv.Sum))))
+		var fl []string
+		for _, f := range iv.Fired {
+			ts := f.TS
+			if ts < 0 {
+				ts = 999999999
+			}
+			fl = append(fl, hx.CoqPair(hx.CoqN(uint64(ts)), hx.CoqN(uint64(f.Count))))
+		}
+		// doomed: the worker's storage failed earlier in this generation; the current code fails that batch (its records are
+		// dropped by this operator) and the worker stops, but until it has stopped later events are still applied
+		doomed := false
+		for _, f := range l.Faults {
+			if f.Gen == iv.Gen && f.Worker == iv.Worker && f.Seq < iv.Seq {
+				doomed = true
+			}
+		}
+		if doomed {
+			nDoomed++
+		}
+		invT = append(invT, fmt.Sprintf("Check_cluster.Inv %s %s %s %s %s %s %s %s", hx.CoqN(uint64(iv.Gen)), hx.CoqN(uint64(k)), hx.CoqN(uint64(iv.Rec)), hx.CoqBool(iv.Probe), hx.CoqList(g, "N * N * N"), hx.CoqN(uint64(iv.Sum)), hx.CoqList(fl, "N * N"), hx.CoqBool(doomed)))
 	}
 	sb.WriteString(hx.CoqList(invT, "Check_cluster.inv") + "\n  ")
 	ackPos := map[uint64]map[int]int{}
@@ -716,7 +800,7 @@ func (eng) execute(mode string, c *hx.Case) (*hx.Result, error) {
 			opGens[parts[1]] = parts[0]
 		}
 	}
-	sb.WriteString(hx.CoqBool(completed) + " " + hx.CoqBool(survivor) + ")")
+	sb.WriteString(hx.CoqBool(completed) + " " + hx.CoqBool(survivor) + "\n  " + hx.CoqList(timerT, "N * N") + ")")
 
 	// ---- tags / non-triviality
 	npub := 0
@@ -762,17 +846,42 @@ func (eng) execute(mode string, c *hx.Case) (*hx.Result, error) {
 	if survivor {
 		tags = append(tags, "survivor-redeployed-in-place")
 	}
+	if nDoomed > 0 {
+		tags = append(tags, "applied-after-storage-fault-before-worker-stopped")
+	}
+	if timersOn {
+		tags = append(tags, "timers-on")
+		firedGen := map[string]int64{}
+		refired := false
+		for _, f := range l.Fires {
+			k := fmt.Sprintf("%s/%d", f.Key, f.TS)
+			if g, ok := firedGen[k]; ok && g != f.Gen {
+				refired = true
+			}
+			firedGen[k] = f.Gen
+			if f.Gen > 1 {
+				tags = append(tags, "timer-fired-after-a-restart")
+			}
+		}
+		if len(l.Fires) > 0 {
+			tags = append(tags, "timers-fired")
+		}
+		if refired {
+			tags = append(tags, "timer-fired-again-after-rollback")
+		}
+	}
 	tags = append(tags, fmt.Sprintf("generations=%d", min(ngen, 5)), fmt.Sprintf("published=%d", min(npub, 4)), fmt.Sprintf("workers=%d", w))
 	if !completed {
 		tags = append(tags, "NOT-COMPLETED")
 	}
 	sort.Strings(tags)
+	tags = slices.Compact(tags)
 	errs := l.Errors
 	if len(errs) > 6 {
 		errs = errs[:6]
 	}
 	obs := map[string]any{"completed": completed, "generations": ngen, "published": npub, "invocations": len(l.Invocations),
-		"errors": errs, "notes": r.notes, "restores": l.Restores}
+		"errors": errs, "notes": r.notes, "restores": l.Restores, "fires": firesOf(l)}
 	return &hx.Result{Term: sb.String(), Nontrivial: appliedAfterCrash && npub > 0, Tags: tags, Observed: obs}, nil
 }
 
@@ -823,6 +932,9 @@ func genCase(r *hx.Rand, i int, tier string) *hx.Case {
 		w = r.Range(2, 3)
 	}
 	nsplits := r.Range(1, 4)
+	if r.Chance(1, 2) {
+		nsplits = r.Range(3, 4)
+	}
 	maxPer := 9
 	if tier == "thorough" {
 		maxPer = 14
@@ -838,7 +950,10 @@ func genCase(r *hx.Rand, i int, tier string) *hx.Case {
 	if kg < w && r.Chance(3, 4) {
 		kg = w + r.Intn(4)
 	}
-	params := map[string]any{"mode": "c01", "workers": w, "kg": kg, "op_batch": hx.Pick(r, []int{1, 2, 3, 5}),
+	// (no timers in the storage-outage template: the timer store turns a failed scan into a panic in the operator's own
+	// goroutine - in production that is just another worker crash, here it would take the engine process down)
+	timersOn := nsplits >= 3 && !outageTemplate // every runner of every generation (at most 3 workers) then reads a split, so its watermark moves
+	params := map[string]any{"mode": "c01", "timers": timersOn, "workers": w, "kg": kg, "op_batch": hx.Pick(r, []int{1, 2, 3, 5}),
 		"sr_batch": hx.Pick(r, []int{1, 2, 4}), "read_batch": hx.Pick(r, []int{1, 2, 3}), "splits": splits}
 	var ops []json.RawMessage
 	curW := w
@@ -869,6 +984,9 @@ func genCase(r *hx.Rand, i int, tier string) *hx.Case {
 	}
 	for p := 0; p < phases; p++ {
 		feed()
+		if timersOn && r.Chance(1, 2) {
+			ops = append(ops, hx.Op(opJ{Op: "advance"}))
+		}
 		if r.Chance(1, 2) {
 			ops = append(ops, hx.Op(opJ{Op: "drain"}))
 		}
@@ -876,6 +994,9 @@ func genCase(r *hx.Rand, i int, tier string) *hx.Case {
 		case 7: // restart from a checkpoint (state now lives in table files), then a transient storage outage while it is read
 			ops = append(ops, hx.Op(opJ{Op: "drain"}), hx.Op(opJ{Op: "settle"}), hx.Op(opJ{Op: "ckpt", Perm: perm()}))
 			ops = append(ops, hx.Op(opJ{Op: "crash", Crash: &crashJ{Job: true, Workers: curW}}))
+			if timersOn {
+				break
+			}
 			ops = append(ops, hx.Op(opJ{Op: "outage", Worker: r.Intn(3), After: r.Intn(60), Len: r.Range(2, 40), N: r.Range(1, 4)}))
 		case 6: // checkpoint fully acknowledged, publication in flight while all workers are lost and re-deployed
 			ops = append(ops, hx.Op(opJ{Op: "ckpt", Perm: perm(), PubHold: hx.Pick(r, []string{"before", "deploy", "deploy", "after"}),
